@@ -43,6 +43,8 @@ func init() {
 			add("deep/bytewise", c06Alpha, d1, nil)
 			add("wide/bytewise", c06Alpha, d1, nil)
 			add("rot/bytewise", c06Alpha, d2, nil)
+			add("flushy/bytewise", emptyKeyAlpha, d1, emptyKeyProbes)
+			add("deep/bytewise", emptyKeyAlpha, d2, emptyKeyProbes)
 			add("bigbatch/bytewise", c06Alpha, d2, nil)
 			for _, k := range []string{"shortlex", "revtail", "xormap", "lazy"} {
 				a, p := cmpAlpha(k)
